@@ -132,21 +132,22 @@ fn ascii_upper(b: u8) -> bool {
 }
 
 /// shape (time,type,char,leap,isstd,isut) = (1,1,4,0,0,0)
-fn parse_min_body<const T: usize>()
+fn parse_min_body<const T: usize, const C: usize>()
 where
     for<'a> DataBlocks<'a, T>: ParseTime<TimeData = [u8; T]>,
 {
     let times: [u8; T] = kani::any();
     let tidx: [u8; 1] = kani::any();
     let ltt: [u8; 6] = kani::any();
-    let chars: [u8; 4] = kani::any();
-    kani::assume(chars[0] == 0 || ascii_upper(chars[0]));
-    kani::assume(chars[1] == 0 || ascii_upper(chars[1]));
-    kani::assume(chars[2] == 0 || ascii_upper(chars[2]));
-    kani::assume(chars[3] == 0 || ascii_upper(chars[3]));
+    let chars: [u8; C] = kani::any();
+    let mut q = 0;
+    while q < C {
+        kani::assume(chars[q] == 0 || ascii_upper(chars[q]));
+        q += 1;
+    }
     let blocks: DataBlocks<'_, T> =
         DataBlocks { transition_times: &times, transition_types: &tidx, local_time_types: &ltt, time_zone_designations: &chars, leap_seconds: &[], std_walls: &[], ut_locals: &[] };
-    let h = Header { version: Version::V1, ut_local_count: 0, std_wall_count: 0, leap_count: 0, transition_count: 1, type_count: 1, char_count: 4 };
+    let h = Header { version: Version::V1, ut_local_count: 0, std_wall_count: 0, leap_count: 0, transition_count: 1, type_count: 1, char_count: C };
     let r = blocks.parse(&h, None);
     // reference decoding (RFC 8536 3.2)
     let mut t: i64 = if times[0] >= 0x80 { -1 } else { 0 };
@@ -159,7 +160,7 @@ where
     let ci = ltt[5] as usize;
     let mut end: Option<usize> = None;
     let mut j = ci;
-    while j < 4 {
+    while j < C {
         if chars[j] == 0 && end.is_none() {
             end = Some(j);
         }
@@ -167,13 +168,18 @@ where
     }
     if ltt[4] > 1 {
         assert!(matches!(&r, Err(TzError::TzFile(TzFileError::InvalidDstIndicator))));
-    } else if ci >= 4 || end.is_none() {
+    } else if ci >= C || end.is_none() {
         assert!(matches!(&r, Err(TzError::TzFile(TzFileError::InvalidTimeZoneDesignationCharIndex))));
     } else {
         let e = end.unwrap();
         let name: Option<&[u8]> = if e == ci { None } else { Some(&chars[ci..e]) };
         match LocalTimeType::new(off, ltt[4] == 1, name) {
-            Err(_) => assert!(matches!(&r, Err(TzError::LocalTimeType(_)))),
+            Err(_) => {
+                assert!(matches!(&r, Err(TzError::LocalTimeType(_))));
+                if C >= 9 {
+                    kani::cover!(e == ci + 8);
+                }
+            }
             Ok(l) => {
                 let exp = TimeZoneRef::new(&[Transition::new(t, tidx[0] as usize)], &[l], &[], &None).map(|_| ());
                 match (&r, &exp) {
@@ -187,6 +193,9 @@ where
                     _ => assert!(false),
                 }
                 kani::cover!(r.is_ok() && e == ci + 3 && t < 0);
+                if C >= 8 {
+                    kani::cover!(r.is_ok() && e == ci + 7);
+                }
             }
         }
     }
@@ -197,13 +206,21 @@ where
 #[kani::proof]
 #[kani::unwind(10)]
 fn c08_records_min_v1() {
-    parse_min_body::<4>();
+    parse_min_body::<4, 4>();
 }
 
 #[kani::proof]
 #[kani::unwind(10)]
 fn c08_records_min_v2() {
-    parse_min_body::<8>();
+    parse_min_body::<8, 4>();
+}
+
+/// same shape with a 10-byte designation table: every designation length 0..9 at every index (7 is the longest legal one, 8 and 9 are
+/// refused by LocalTimeType::new), unterminated strings, indices beyond the table
+#[kani::proof]
+#[kani::unwind(13)]
+fn c08_records_designation_lengths_v2() {
+    parse_min_body::<8, 10>();
 }
 
 /// shape (2,2,8,0,0,0), 64-bit block: two transitions, two types whose designations may overlap (shared suffix / same string)
